@@ -26,7 +26,7 @@ ASSUMPTIONS = [
 GATES = {
     "bit0_set_and_clear": 1, "bit1_set_and_clear": 1, "bit2_set_and_clear": 1, "bit6_set_and_clear": 1,
     "bit7_set_and_clear": 1, "bits_6_and_7_together": 1, "step_kind_repeated_twice": 1, "step_kind_repeated_3x": 1,
-    "steps_monitored": 100, "cause_oracle_pixels": 10000, "pixels_computable_at_sub_pixel_samples_only": 5,
+    "steps_monitored": 100, "cost_volume_flags_watched_during_later_steps": 50, "cause_oracle_pixels": 10000, "pixels_computable_at_sub_pixel_samples_only": 5,
 }
 REFINE, FILL_OCC, FILL_MIS, OCC, MIS, B11 = 8, 16, 32, 256, 512, 2048
 
@@ -307,6 +307,16 @@ def _own(case, ctx):
                 if prev.shape != now.shape:
                     continue
                 changed = prev ^ now
+                if dsname.endswith("_cv"):
+                    # the flags of the cost volume belong to the cost-volume steps: a step working on the disparity map owns
+                    # none of them (a second disparity computation from the same volume must not be born with bits 3/8/9/11)
+                    ctx.gate("cost_volume_flags_watched_during_later_steps")
+                    if (changed != 0).any():
+                        i = np.argwhere(changed != 0)[0]
+                        ctx.violation("later-step-changed-the-cost-volume-flags",
+                                      f"step {key} ({dsname}): pixel {i.tolist()} flag {int(prev[tuple(i)])} -> {int(now[tuple(i)])}", case,
+                                      situation=f"{kind}", desc=desc)
+                    continue
                 foreign = changed & ~own
                 if (foreign != 0).any():
                     i = np.argwhere(foreign != 0)[0]
